@@ -40,7 +40,21 @@ pub const TREE_APIS: [&str; 7] = ["drop", "clone", "eq", "hash", "emit", "emit:m
 pub const WIDE_SHAPES: [&str; 5] = ["wide-seq", "wide-map", "wide-flowseq", "wide-flowmap", "flow-closed-200"];
 pub const WIDE_APIS: [&str; 6] = ["iter@256k", "load", "roundtrip:Yaml", "roundtrip:YamlOwned", "roundtrip:MarkedYaml", "roundtrip:MarkedYamlOwned"];
 
+/// Constructs in which one character is repeated (the flat-input stack scenarios of C01).
+pub const RUN_CONTEXTS: [&str; 14] = [
+    "- {R}\n", "{R}: v\n", "k: \"{R}\"\n", "k: '{R}'\n", "!!int {R}\n", "!!float {R}\n", "!{R} x\n", "&{R} x\n", "# {R}\n", "k: |\n {R}\n", "[{R}]\n", "k: a{R}\n",
+    "- 1{R}\n", "%TAG !e! {R}\n--- !e!x y\n",
+];
+pub const RUN_CHARS: &str = "+-.0_~exoXOaAnNfFtT:,#&*!|>%@`\\/<=? \t\n";
+pub const RUN_APIS: [&str; 6] = ["iter@256k", "lfs:Yaml", "lfs:YamlOwned", "lfs:MarkedYamlOwned", "lazy:Yaml", "decode"];
+
 pub fn shape_class(shape: &str) -> &'static str {
+    if shape.starts_with("rep:") {
+        return "rep";
+    }
+    if shape.starts_with("run:") {
+        return "flat";
+    }
     if shape.starts_with("randnest:") || shape.starts_with("randnest-seq:") {
         return "block";
     }
@@ -103,6 +117,27 @@ pub fn text_for(shape: &str, d: usize) -> String {
     }
     if let Some(seed) = shape.strip_prefix("randnest-seq:") {
         return rand_nest(seed.parse().unwrap_or(0), d, true);
+    }
+    if let Some(spec) = shape.strip_prefix("rep:") {
+        // one token, or an ordered pair of tokens, of the YAML token alphabet repeated d times
+        let mut unit = String::new();
+        for k in spec.split(':') {
+            unit.push_str(crate::gen::TOKENS[k.parse::<usize>().unwrap_or(0) % crate::gen::TOKENS.len()]);
+        }
+        let mut s = String::with_capacity(unit.len() * d + 2);
+        for _ in 0..d {
+            s.push_str(&unit);
+        }
+        s.push_str("x\n");
+        return s;
+    }
+    if let Some(spec) = shape.strip_prefix("run:") {
+        // a FLAT input: one character repeated d times inside one construct
+        let mut it = spec.split(':');
+        let ctx = it.next().and_then(|k| k.parse::<usize>().ok()).unwrap_or(0) % RUN_CONTEXTS.len();
+        let ch = it.next().and_then(|k| k.parse::<u32>().ok()).and_then(char::from_u32).unwrap_or('+');
+        let run: String = std::iter::repeat(ch).take(d).collect();
+        return RUN_CONTEXTS[ctx].replace("{R}", &run);
     }
     if let Some(fam) = shape.strip_prefix("family:") {
         // every input family of the instruction clock, `d` = size in bytes
@@ -805,6 +840,25 @@ fn grid(cfg: &Config, known: &[Known]) -> Vec<Scn> {
             }
         }
     }
+    // every token of the YAML token alphabet, and every ordered pair, repeated: the pull parser
+    // must be constant-stack whatever is repeated
+    let nt = crate::gen::TOKENS.len();
+    for i in 0..nt {
+        let mut ds = vec![100_000 - r.usize(10_000)];
+        if thorough {
+            ds.push(1_000_000 - r.usize(100_000));
+        }
+        for d in ds {
+            for api in ["iter@256k", "peeknext@256k"] {
+                v.push(Scn { shape: format!("rep:{i}"), depth: d, api: api.into() });
+            }
+        }
+        for j in 0..nt {
+            if i != j {
+                v.push(Scn { shape: format!("rep:{i}:{j}"), depth: 50_000 - r.usize(5_000), api: "iter@256k".into() });
+            }
+        }
+    }
     // seeded nests with dedents: every pull API on the small stack, one loader
     let n_rand = if thorough { 24 } else { 6 };
     for k in 0..n_rand {
@@ -1057,7 +1111,6 @@ pub fn run(cfg: &Config) -> i32 {
 /// trap, in child processes on the 256 KiB and 8 MiB stacks. Decoding is a loop: its stack use
 /// must not depend on how many malformed sequences the input holds.
 pub fn decoder_grid(cfg: &Config) -> (i32, J) {
-    let t0 = Instant::now();
     let thorough = cfg.tier == "thorough";
     let mut scns = Vec::new();
     for p in BYTE_PATTERNS {
@@ -1074,6 +1127,47 @@ pub fn decoder_grid(cfg: &Config) -> (i32, J) {
             }
         }
     }
+    let (code, mut ev) = aux_grid(cfg, "C18", "decoder stack sub-check", &format!("{} byte patterns x 4 traps x 2 stacks", BYTE_PATTERNS.len()), scns);
+    if ev != J::Null {
+        ev.set("patterns", J::Arr(BYTE_PATTERNS.iter().map(|p| J::str(p)).collect()));
+        ev.set("stacks", J::Arr(vec![J::str("256 KiB"), J::str("8 MiB")]));
+    }
+    (code, ev)
+}
+
+/// C01's "never aborts" for FLAT inputs: one character repeated 10^5..10^6 times inside every
+/// kind of construct, through the pull parser on a 256 KiB stack and the loaders, deferred
+/// resolution and the decoder on 8 MiB. Nothing here nests, so no listed finding applies: an
+/// abort means that something recurses (or reserves stack) per input CHARACTER.
+pub fn flat_grid(cfg: &Config) -> (i32, J) {
+    let thorough = cfg.tier == "thorough";
+    let mut r = SplitMix64::new(mix(cfg.seed, 1, 0xF1A7));
+    let mut scns = Vec::new();
+    for (c, _) in RUN_CONTEXTS.iter().enumerate() {
+        for ch in RUN_CHARS.chars() {
+            for api in RUN_APIS {
+                let mut ns = vec![200_000 - r.usize(20_000)];
+                if thorough {
+                    ns.push(2_000_000 - r.usize(200_000));
+                    ns.push(4_000 + r.usize(1000));
+                }
+                for n in ns {
+                    scns.push(Scn { shape: format!("run:{c}:{}", ch as u32), depth: n, api: api.into() });
+                }
+            }
+        }
+    }
+    let (code, mut ev) = aux_grid(cfg, "C01", "flat-input stack sub-check", &format!("{} constructs x {} repeated characters x {} APIs", RUN_CONTEXTS.len(), RUN_CHARS.chars().count(), RUN_APIS.len()), scns);
+    if ev != J::Null {
+        ev.set("constructs", J::Arr(RUN_CONTEXTS.iter().map(|p| J::str(p)).collect()));
+        ev.set("repeated_characters", J::str(RUN_CHARS));
+        ev.set("apis", J::Arr(RUN_APIS.iter().map(|p| J::str(p)).collect()));
+    }
+    (code, ev)
+}
+
+fn aux_grid(cfg: &Config, prop: &str, label: &str, dims: &str, scns: Vec<Scn>) -> (i32, J) {
+    let t0 = Instant::now();
     let scns = Arc::new(scns);
     let results: Arc<Mutex<Vec<(usize, Obs)>>> = Arc::new(Mutex::new(Vec::new()));
     let next = Arc::new(AtomicUsize::new(0));
@@ -1110,7 +1204,7 @@ pub fn decoder_grid(cfg: &Config) -> (i32, J) {
         match o {
             Obs::Ok(_) | Obs::Err(_) => {}
             Obs::Harness(l) => {
-                eprintln!("harness error: decoder scenario {s:?}: {l}");
+                eprintln!("harness error: {label} scenario {s:?}: {l}");
                 return (2, J::Null);
             }
             _ => {
@@ -1119,7 +1213,7 @@ pub fn decoder_grid(cfg: &Config) -> (i32, J) {
                     Obs::Panic => "PANIC",
                     _ => "HANG(watchdog)",
                 };
-                bad.push((s.clone(), class.to_string(), format!("{class}: decoding {} x {} through {} ({text})", s.shape, s.depth, s.api)));
+                bad.push((s.clone(), class.to_string(), format!("{class}: {} x {} through {} ({text})", s.shape, s.depth, s.api)));
             }
         }
     }
@@ -1142,26 +1236,24 @@ pub fn decoder_grid(cfg: &Config) -> (i32, J) {
                 lo = mid + 1;
             }
         }
-        let case = Case { prop: "C11".into(), shape: s.shape.clone(), depth: hi, api: s.api.clone(), gen: "decoder-grid".into(), ..Case::default() };
-        let path = format!("{}/replays/C18-{}-stack-{}-{}-{}.json", cfg.verif_dir, cfg.seed, s.shape.replace(':', "_"), s.api.replace([':', '@'], "_"), hi);
+        let case = Case { prop: "C11".into(), shape: s.shape.clone(), depth: hi, api: s.api.clone(), gen: "aux-grid".into(), ..Case::default() };
+        let path = format!("{}/replays/{prop}-{}-stack-{}-{}-{}.json", cfg.verif_dir, cfg.seed, s.shape.replace(':', "_"), s.api.replace([':', '@'], "_"), hi);
         let mut rj = crate::batch::replay_json(cfg, 0, &case, class, detail, None, steps);
-        rj.set("property", J::str("C18"));
+        rj.set("property", J::str(prop));
         let _ = std::fs::create_dir_all(format!("{}/replays", cfg.verif_dir));
         if std::fs::write(&path, rj.to_pretty()).is_err() {
             eprintln!("harness error: cannot write {path}");
             return (2, J::Null);
         }
         println!("violation class={class} detail={detail} (minimised run length {hi})");
-        println!("VIOLATION property=C18 replay={path}");
+        println!("VIOLATION property={prop} replay={path}");
         vj = J::obj().with("class", J::str(class)).with("detail", J::str(detail)).with("replay", J::str(&path));
         exit = 1;
     }
     let wall = t0.elapsed().as_secs_f64();
-    println!("C18 decoder stack sub-check: {} scenarios ({} byte patterns x 4 traps x 2 stacks) in {:.1}s: {:?}", results.len(), BYTE_PATTERNS.len(), wall, counts);
+    println!("{prop} {label}: {} scenarios ({dims}) in {:.1}s: {:?}", results.len(), wall, counts);
     let mut ev = J::obj();
     ev.set("scenarios", J::int(results.len()));
-    ev.set("patterns", J::Arr(BYTE_PATTERNS.iter().map(|p| J::str(p)).collect()));
-    ev.set("stacks", J::Arr(vec![J::str("256 KiB"), J::str("8 MiB")]));
     ev.set("observations", J::from_counts(&counts));
     ev.set("wall_s", J::Float(wall));
     if vj != J::Null {
@@ -1241,7 +1333,8 @@ pub fn replay(case: &Case, path: &str) -> i32 {
                 _ => "HANG(watchdog)",
             };
             println!("violation class={class} detail=shape={} depth={} api={} {o:?}", s.shape, s.depth, s.api);
-            println!("VIOLATION property=C11 replay={path}");
+            let prop = if s.shape.starts_with("bytes:") { "C18" } else if s.shape.starts_with("run:") { "C01" } else { "C11" };
+            println!("VIOLATION property={prop} replay={path}");
             1
         }
     }
